@@ -615,7 +615,8 @@ def diff(a, n=1, axis=-1, prepend=None, append=None):
 
     r = a
     for _ in range(n):
-        r = r[sl_1] - r[sl_2]
+        # like NumPy: boolean arrays are differenced with not_equal
+        r = r[sl_1] != r[sl_2] if r.dtype == bool else r[sl_1] - r[sl_2]
 
     return r
 
